@@ -4,9 +4,13 @@ CONSTANTS
   NN = 1
   MaxPN = 0
   MaxPC = 0
+  MaxStray = 0
   UseWriteMu = FALSE
   ChanCap = 1
   RegisterFirst = TRUE
+  AtomicAlloc = TRUE
+  IdDecode = "strict"
+  IdVocab = "small"
 INIT Init
 NEXT Next
 INVARIANTS TypeOK Matched FramesNeverInterleave
